@@ -1362,7 +1362,11 @@ func SelectExpr(query *Query, current Map, expr *sqlparser.SelectExprs, opts ...
 							value = *x
 						}
 
-						data[name] = value
+						// a later select item of the same name (another alias, a star) has the column
+						// by now: the value goes into the column only while the slot is still there
+						if slot, ok := data[name].(*any); ok && slot == valueRaw {
+							data[name] = value
+						}
 						return nil
 					})
 				}
